@@ -26,7 +26,7 @@ TIERS = {
 }
 KINDS = ['int64', 'int32', 'float64', 'float32', 'bool', 'str_obj', 'str_pd3', 'string_ext', 'cat', 'dt_ns', 'dt_us',
          'Int64', 'boolean', 'Float64', 'dateobj']
-MUTS = ['copy', 'copy', 'value', 'value', 'null_to_value', 'value_to_null', 'float_small', 'float_large', 'rename', 'retype',
+MUTS = ['copy', 'copy', 'copy', 'value', 'value', 'null_to_value', 'value_to_null', 'float_small', 'float_large', 'rename', 'retype',
         'move', 'drop', 'add_col', 'add_row', 'remove_row', 'swap_rows']
 ENTRIES = ['check_dataframe', 'check_dataframe', 'assertDataFramesEqual', 'assertDataFrameCorrect-parquet',
            'assertDataFrameCorrect-csv', 'assertOnDisk-parquet', 'assertOnDisk-csv']
@@ -42,7 +42,7 @@ ASSUMPTIONS = [
 ]
 REQUIRED_MONITORS = ['oracle:must-pass', 'oracle:must-fail', 'failure:message_checked', 'inputs:hashed'] + \
     ['entry:' + e for e in sorted(set(ENTRIES))] + ['reach:types_match', 'reach:single_col_diffs', 'reach:resolve_option_flag']
-REQUIRED_CLASSES = ['mut=%s' % m for m in sorted(set(MUTS))] + ['kind=%s' % k for k in KINDS]
+REQUIRED_CLASSES = ['mut=%s' % m for m in sorted(set(MUTS))] + ['mut=key_crosses_condition'] + ['kind=%s' % k for k in KINDS]
 
 _counter = collections.Counter()
 _rt = None
@@ -217,7 +217,27 @@ def gen_case(rng, i):
         opts['sortby'] = [mut['col']]        # sorting requested on the column that is missing from actual
     if mut['kind'] == 'swap_rows':
         mut['sort_restores'] = opts['sortby'] == ['k']
-    if 'row' in mut and opts['condition']:
+    if mut['kind'] in ('add_row', 'remove_row') and rng.random() < 0.5 and not opts['condition']:
+        opts['condition'] = {'k_lt': rng.randint(20, 90)}
+    if mut['kind'] == 'copy' and i % 7 == 3:
+        # a key that crosses the condition threshold on one side only: same raw length, different filtered length
+        n_ = rng.randint(20, 90)
+        ks = base['cols'][0]['values']
+        below = [t for t in range(n) if ks[t] < n_]
+        if below:
+            r_ = rng.choice(below)
+            act['cols'][0]['values'][r_] = ks[r_] + 1000
+            mut = {'kind': 'key_crosses_condition', 'col': 'k', 'row': r_}
+            opts['condition'] = {'k_lt': n_}
+            opts['sortby'] = None
+    if opts['condition'] and mut['kind'] in ('add_row', 'remove_row', 'key_crosses_condition'):
+        n_ = opts['condition']['k_lt']
+        kb = [v for v in base['cols'][0]['values'] if v < n_]
+        ka = [v for v in act['cols'][0]['values'] if v < n_]
+        mut['filtered_counts_equal'] = len(kb) == len(ka)
+        if mut['kind'] != 'key_crosses_condition' and len(kb) == len(ka) and kb != ka:
+            mut['filtered_counts_equal'] = None
+    if 'row' in mut and opts['condition'] and mut['kind'] != 'key_crosses_condition':
         kv = base['cols'][0]['values'][mut['row']]
         mut['row_filtered_by_condition'] = not (kv < opts['condition']['k_lt'])
     return {'base': base, 'actual': act, 'mut': mut, 'opts': opts, 'entry': entry}
